@@ -474,6 +474,15 @@ func (an *Analysis) handleType(typ types.Type, ctx context) Type {
 		return v
 	}
 
+	if alias, isAlias := typ.(*types.Alias); isAlias {
+		// an alias shares the node of its target, which may already be analyzed
+		type_ := an.handleType(types.Unalias(alias), ctx)
+		if !ctx.isInExtern {
+			an.Types[typ] = type_
+		}
+		return type_
+	}
+
 	// resolve the type
 	type_ := an.createType(typ, ctx)
 	// register it if not extern
